@@ -110,7 +110,10 @@ func scenarioKeys(c *vrun.Ctx) {
 	}
 	c.Params(&p)
 	methods := []string{"GET", "HEAD"}
-	hosts := []string{"h", "H", "h:80", "g"}
+	// "\u212aa" starts with the KELVIN SIGN, which Unicode case mapping folds onto "k"; "\xffa" / "\xfea" are
+	// not valid UTF-8 (a case mapping that "repairs" them makes both U+FFFD): three hosts that are nobody's
+	// letter-case variant. Host names compare case-insensitively in ASCII.
+	hosts := []string{"h", "H", "h:80", "g", "ka", "\u212aa", "\xffa", "\xfea"}
 	segs := []string{"a", "b", ".", "..", "", "a|b", "a%7Cb", "a%2Fb", "%61", "A"}
 	queries := []string{"", "?c", "?b|c", "?|c", "?c&d", "?d&c", "?c=%7C", "?"}
 	var paths []string
@@ -129,6 +132,9 @@ func scenarioKeys(c *vrun.Ctx) {
 	}
 	paths = append(paths, "/", "") // "" = absolute-form target without a path ("GET http://h HTTP/1.1")
 	rec("", 0)
+	// long targets: whatever the key is computed from, it is all of the target (300 equal bytes, then a difference)
+	long := "/" + strings.Repeat("x", 300)
+	paths = append(paths, long, long+"/", long+"/a", long+"/b", long+"/a/", long+"/a/../b", long+"x")
 	var ts []*target
 	for _, m := range methods {
 		for _, h := range hosts {
@@ -149,8 +155,8 @@ func scenarioKeys(c *vrun.Ctx) {
 						t.key = MakeFromRequest(req).Hex
 					}()
 					qq := strings.TrimPrefix(q, "?")
-					t.mustForm = m + "\x00" + strings.ToLower(h) + "\x00" + removeDotSegments(pa) + "\x00" + qq
-					t.mayForm = m + "\x00" + strings.ToLower(h) + "\x00" + mayNormalize(pa) + "\x00" + qq
+					t.mustForm = m + "\x00" + refLowerASCII(h) + "\x00" + removeDotSegments(pa) + "\x00" + qq
+					t.mayForm = m + "\x00" + refLowerASCII(h) + "\x00" + mayNormalize(pa) + "\x00" + qq
 					ts = append(ts, t)
 					c.Case()
 				}
@@ -209,7 +215,7 @@ func pairClass(a, b *target) string {
 	if a.method != b.method {
 		cls = append(cls, "method")
 	}
-	if strings.ToLower(a.host) != strings.ToLower(b.host) {
+	if refLowerASCII(a.host) != refLowerASCII(b.host) {
 		cls = append(cls, "host")
 	}
 	pa, pb := a.path, b.path
@@ -235,4 +241,14 @@ func pairClass(a, b *target) string {
 		}
 	}
 	return strings.Join(cls, "+")
+}
+
+func refLowerASCII(s string) string {
+	b := []byte(s)
+	for i, c := range b {
+		if c >= 'A' && c <= 'Z' {
+			b[i] = c + 'a' - 'A'
+		}
+	}
+	return string(b)
 }
